@@ -164,7 +164,7 @@ def run_C04(res, tier, seed, t_end, bad):
     if not res.findings:
         # "any command, any number of arguments, any argument bytes": the option grammar of every command family in full (each of these matrices
         # belongs to the property that judges the replies; here they run under the reply-count / well-formedness / no-crash monitor)
-        matrix_pre(res, 'C04', tier, seed, t_end, [('glob-users', Mx.glob_crash_cases, 700), ('set-options', Mx.set_option_cases, 700), ('zsets', Mx.zsets_cases, 6000),
+        matrix_pre(res, 'C04', tier, seed, t_end, [('late-errors', Mx.late_error_cases, 450), ('glob-users', Mx.glob_crash_cases, 700), ('set-options', Mx.set_option_cases, 700), ('zsets', Mx.zsets_cases, 6000),
                                                    ('lists', Mx.lists_cases, 2200), ('sets', Mx.sets_cases, 120), ('strings', Mx.strings_cases, 2400),
                                                    ('sort', Mx.sort_cases, 600), ('scan-filters', Mx.scan_filter_cases, 400), ('ttl-rules', Mx.ttl_cases, 300),
                                                    ('floats', Mx.floats_cases, 300)], obs)
@@ -917,6 +917,10 @@ def run_C12(res, tier, seed, t_end, bad):
         Cp.run_campaign(res, 'C12', Cp.plan_single(['list', 'set', 'hash', 'zset', 'str', 'key', 'sort'], 45, mutate=0.02), budget(tier, 12, 200), seed + 7, None, (),
                         deadline=t_end)
         Mx.run_cases(res, 'C12', [c for c in Mx.lists_cases() if any(f[0] == b'lrange' for f in c if isinstance(f, list))], tier, seed, t_end, 150, (), None, label='reply-aliasing')
+    if not res.findings:
+        # messages are handed to the subscribers inside the critical section of the PUBLISH (otherwise two publishers' messages can overtake each other and a
+        # message can arrive after the UNSUBSCRIBE was acknowledged): checked deterministically by the lock monitor of every session
+        Mx.run_cases(res, 'C12', list(Mx.pubsub_server_cases()) + list(Mx.pubsub_glob_cases())[:6], tier, seed, t_end, 100, (), None, label='deliveries-under-lock')
     if not res.findings:
         # commands that wait (BLPOP/BRPOPLPUSH) take effect in their LAST critical section: the scheduler harness drives the real
         # _blocking code through every order of critical sections and compares with the sequential model
